@@ -51,6 +51,7 @@ type (
 		args      []reflect.Value
 		callSlice bool
 		subExprs  []ast.Expr // the argument expressions, for the write-back of &x arguments
+		scope     *env.Env   // the scope of the defer statement: where those variables are looked up
 	}
 )
 
